@@ -26,6 +26,8 @@ type FuncInfo struct {
 	File     string
 	CutAt    map[ast.Stmt][]*Cut
 	CutErr   []string
+	Rename   map[string]string // contract identifier -> current name of a renamed local (see locals.go)
+	RenameNote string
 }
 
 type Prog struct {
@@ -156,6 +158,7 @@ func loadProg(root string, patterns []string) (*Prog, error) {
 		sort.Strings(missing)
 		return nil, fmt.Errorf("contracts for unknown functions: %s", strings.Join(missing, ", "))
 	}
+	p.applyRenames()
 	for _, fi := range p.funcs {
 		if fi.Contract != nil && len(fi.Contract.Cuts)+len(fi.Contract.Assumes) > 0 {
 			p.bindCuts(fi)
@@ -675,7 +678,7 @@ func (p *Prog) bindCuts(fi *FuncInfo) {
 	}
 	all := append(append([]*Cut{}, fi.Contract.Cuts...), fi.Contract.Assumes...)
 	for _, cut := range all {
-		want := normStmt([]byte(cut.Anchor))
+		want := normStmt([]byte(renameWords(cut.Anchor, fi.Rename)))
 		var hits []ast.Stmt
 		ast.Inspect(fi.Decl.Body, func(n ast.Node) bool {
 			st, ok := n.(ast.Stmt)
